@@ -695,6 +695,13 @@ fn ev_c07_init(c: &crate::props::c07::InitCase) -> Outcome {
 fn ev_c18_meta(c: &crate::props::c18::MetaCase) -> Outcome {
     panics_only("C18.metadata", crate::props::c18::eval_meta(c))
 }
+fn ev_c04_contract(c: &crate::contract::RawCase) -> Outcome {
+    panics_only("C04.contract", crate::props::c04::eval(c))
+}
+fn s_c04_contract(t: Tier) -> BoxedStrategy<crate::contract::RawCase> {
+    use proptest::strategy::Strategy;
+    crate::contract::raw_case_strategy(if t == Tier::Quick { 30 } else { 40 }, 1).boxed()
+}
 fn ev_long(c: &crate::scenario::ValidCase) -> Outcome {
     panics_only("long_recordings", crate::props::c01::eval(c))
 }
@@ -740,6 +747,7 @@ pub fn def() -> PropertyDef {
             Box::new(PSub { name: "borrowed_c07_keyframes", quick: 12000, thorough: 400000, strat: s_key_any, eval: ev_c07_key }),
             Box::new(PSub { name: "borrowed_c07_init", quick: 6000, thorough: 150000, strat: crate::props::c07::s_init, eval: ev_c07_init }),
             Box::new(PSub { name: "borrowed_c18_metadata", quick: 6000, thorough: 150000, strat: crate::props::c18::meta_strategy, eval: ev_c18_meta }),
+            Box::new(PSub { name: "borrowed_c04_contract", quick: 40000, thorough: 1000000, strat: s_c04_contract, eval: ev_c04_contract }),
             Box::new(LSub { name: "long_recordings", cases: crate::scenario::long_cases_all, eval: ev_long, note: crate::scenario::LONG_NOTE }),
             Box::new(LSub { name: "four_gib_limit", cases: limit_cases, eval: ev_limit, note: "C16's four_gib_limit cases (payload ending just below 2^32 bytes), judged for panics and overflow only" }),
         ],
